@@ -543,12 +543,12 @@ func init() {
 		S("tojson", 2, "tojson", TStr),
 		S("range", 1, "[limit(5; range(.))]", TArr),
 		S("range3", 1, "[limit(5; range(0; .; 3))]", TArr),
-		S("idx-by", 2, `. as $x | [10, 20, 30, 40] | .[$x]`, TAny),
-		S("slice-by", 1, `. as $x | [10, 20, 30, 40] | .[$x:]`, TAny),
-		S("slice-by2", 1, `. as $x | "abcdef" | .[:$x]`, TAny),
+		S("as-arg-index-arr", 2, `. as $x | [10, 20, 30, 40] | .[$x]`, TAny),
+		S("as-arg-slice", 1, `. as $x | [10, 20, 30, 40] | .[$x:]`, TAny),
+		S("as-arg-slice", 1, `. as $x | "abcdef" | .[:$x]`, TAny),
 		S("arg-has-index", 1, `. as $x | [10, 20, 30] | has($x)`, TBool),
-		S("str-repeat", 1, `. as $x | try ("ab" * $x) catch "E"`, TAny),
-		S("implode", 1, `try ([.] | implode) catch "E"`, TAny),
+		S("as-arg-mul-str", 1, `. as $x | try ("ab" * $x) catch "E"`, TAny),
+		S("arg-implode", 1, `try ([.] | implode) catch "E"`, TAny),
 		S("num-key", 1, "{(tostring): .}", TObj),
 		S("todate", 1, `try todate catch "E"`, TAny),
 		S("num-@base64", 1, "@base64", TStr),
@@ -559,10 +559,10 @@ func init() {
 		S("modf", 1, `try modf catch "E"`, TAny),
 		S("tojson-num-arr", 1, "[., -., . + 0.5] | tojson", TStr),
 		S("num-@sh", 1, "@sh", TStr),
-		S("num-limit", 1, `. as $x | try [limit($x; 1, 2, 3)] catch "E"`, TAny),
+		S("as-arg-limit", 1, `. as $x | try [limit($x; 1, 2, 3)] catch "E"`, TAny),
 		S("arg-ltrimstr-num", 1, `. as $x | try ("a" | ltrimstr($x)) catch "E"`, TAny),
 		S("num-nth", 1, `. as $x | try nth($x; 1, 2, 3) catch "E"`, TAny),
-		S("num-getpath", 1, `. as $x | [[1, 2], [3]] | getpath([$x, 0])`, TAny),
+		S("as-arg-getpath2", 1, `. as $x | [[1, 2], [3]] | getpath([$x, 0])`, TAny),
 		S("num-in", 1, `IN(0, 1, 255, 65535)`, TBool),
 		S("num-bits", 1, `try (. % 256 | . * 2 | floor) catch "E"`, TAny),
 	}
@@ -624,21 +624,21 @@ func init() {
 		S("str-@tsv", 1, "[., 1] | @tsv", TStr),
 		S("@base32", 1, "@base32", TStr),
 		S("@base32d", 1, `try @base32d catch "E"`, TAny),
-		S("join-with", 1, `. as $x | ["a", "b", "c"] | join($x)`, TStr),
+		S("as-arg-join", 1, `. as $x | ["a", "b", "c"] | join($x)`, TStr),
 		S("join-in", 1, `[., "b", 1, null] | join("-")`, TStr),
-		S("split-by", 1, `. as $x | try ("a,b a" | split($x)) catch "E"`, TAny),
-		S("ltrimstr-by", 1, `. as $x | "abcabc" | ltrimstr($x)`, TStr),
-		S("startswith-by", 1, `. as $x | "abcabc" | startswith($x)`, TBool),
+		S("as-arg-split", 1, `. as $x | try ("a,b a" | split($x)) catch "E"`, TAny),
+		S("as-arg-ltrimstr", 1, `. as $x | "abcabc" | ltrimstr($x)`, TStr),
+		S("as-arg-startswith", 1, `. as $x | "abcabc" | startswith($x)`, TBool),
 		// (a string input with a non-string argument crashes fq outright, see NOTES.md)
 		S("index-by", 1, `. as $x | if type == "string" then ("abcabc name" | index($x)) else "na" end`, TAny),
 		S("arg-has-key", 2, `. as $x | {"a": 1, "name": 2, "abc": 3} | has($x)`, TBool),
-		S("str-key-by", 2, `. as $x | {"a": 1, "name": 2, "abc": 3} | .[$x]`, TAny),
+		S("as-arg-index", 2, `. as $x | {"a": 1, "name": 2, "abc": 3} | .[$x]`, TAny),
 		S("object-key", 2, "{(.): 1}", TObj),
 		S("str-interp", 1, `"a\(.)b\(.)"`, TStr),
 		F("str-lt", 1, func(g *qgen, vi vinfo) (string, vinfo) { return ". < " + g.near(vi), typed(TBool) }),
 		S("str-sort", 1, `[., "a", "", "b", "é", "name"] | sort`, TArr),
 		S("from-entries-key", 1, `[{key: ., value: 1}] | from_entries`, TObj),
-		S("str-getpath-by", 1, `. as $x | {"a": {"b": 1}, "name": [2]} | getpath([$x])`, TAny),
+		S("as-arg-getpath", 1, `. as $x | {"a": {"b": 1}, "name": [2]} | getpath([$x])`, TAny),
 		S("trim-try", 1, `try trim catch "E"`, TAny),
 		S("ltrim-try", 1, `try ltrim catch "E"`, TAny),
 		S("str-todate", 1, `try fromdateiso8601 catch "E"`, TAny),
